@@ -691,6 +691,25 @@ def main():
         raise ValueError("unrecognised single-line branch of stripped()")
     g.attempt("singleLineStripped", True, single_line_stripped)
 
+    def recall_pops_first():
+        """HsmWithQueues.recall: is the deferred event taken out of the defer queue BEFORE it is posted (a post may run the chart,
+        whose handler may recall again)?"""
+        fn = find_func(find_class(hsm, "HsmWithQueues"), "recall")
+        pops = [n for n in ast.walk(fn) if isinstance(n, ast.Call) and isinstance(n.func, ast.Attribute) and n.func.attr in ("popleft", "pop")
+                and "defer_queue" in unparse(n.func)]
+        posts = [n for n in ast.walk(fn) if isinstance(n, ast.Call) and isinstance(n.func, ast.Attribute) and n.func.attr in ("post_fifo", "post_lifo", "append")
+                 and "defer_queue" not in unparse(n.func)]
+        if len(pops) != 1 or len(posts) != 1:
+            raise ValueError("recall(): expected one pop of the defer queue and one post, found %d and %d" % (len(pops), len(posts)))
+        before = (pops[0].lineno, pops[0].col_offset) < (posts[0].lineno, posts[0].col_offset)
+        peeks = "defer_queue[0]" in unparse(fn)
+        if before and not peeks:
+            return True
+        if not before:
+            return False
+        raise ValueError("recall(): pops first but also peeks at defer_queue[0]")
+    g.attempt("recallPopsFirst", True, recall_pops_first)
+
     # ---- emit -------------------------------------------------------------
     v = g.values
     def b(x):
@@ -720,7 +739,7 @@ def main():
                      v["fab.feOrder"], v["fab.lifoDeliver"], b(v["fab.startKeepsHandles"]), b(v["fab.clearInPlace"]),
                      b(v["fab.subscribeKeepsOthers"])))
     lines.append("def fifoDeliverPlain : Bool := " + b(v["fab.fifoDeliverPlain"]))
-    for k in ("singletonLocked", "singletonPublishesEarly", "registryLocked", "tsaFlagPerThread", "tsaPerInstance", "tsaProtocol", "singleLineStripped"):
+    for k in ("recallPopsFirst", "singletonLocked", "singletonPublishesEarly", "registryLocked", "tsaFlagPerThread", "tsaPerInstance", "tsaProtocol", "singleLineStripped"):
         lines.append("def %s : Bool := %s" % (k, b(v[k])))
     for k in ("notAtomicPattern", "lockRequestPattern", "stripPattern"):
         lines.append("def %s : String := %s" % (k, lean_str(v[k])))
